@@ -41,15 +41,8 @@ pub trait ChainStore: Send + Sync + Sized {
     /// Get block by block header hash
     fn get_block(&self, h: &packed::Byte32) -> Option<BlockView> {
         let header = self.get_block_header(h)?;
-        if let Some(freezer) = self.freezer()
-            && header.number() > 0
-            && header.number() < freezer.number()
-        {
-            let raw_block = freezer.retrieve(header.number()).expect("block frozen")?;
-            let raw_block = packed::BlockReader::from_compatible_slice(&raw_block)
-                .expect("checked data")
-                .to_entity();
-            return Some(raw_block.into_view());
+        if let Some(block) = self.get_frozen_block(h) {
+            return Some(block.into_view());
         }
         let body = self.get_block_body(h);
         let uncles = self
